@@ -24,6 +24,7 @@ from .core import Decider, HarnessError, Violation, canon, derive_seed, jsonable
 CHECKS = {
     "C07": "sr_world",
     "C08": "coherence",
+    "C09": "weights_invariants",
     "C12": "sampler_matrix",
     "C14": "lockstep",
 }
